@@ -1394,6 +1394,80 @@ def call_table():
     pr_variant(True, settings={"plot_pose_correspondences": True}, plot_colormap_max_percentile=75,
                plot_colormap_max=2.0, plot_mode="zx", plot_x_dimension="seconds")
     pr_variant(False, full=True, plot_colormap_max_percentile=99.0, plot_mode="xz", plot_x_dimension="distances")
+
+    # ---------------- the metric entry points of evo_ape / evo_rpe as a library ("computing a metric"): main_ape.ape and
+    # main_rpe.rpe(..., support_loop=True) - the mode for repeated calls on the same objects (notebooks) - without
+    # alignment / projection (those operate on traj_est / both trajectories explicitly). Both argument trajectories are
+    # snapshotted bit for bit; the call is made twice on the same objects and must give the same Result; the trajectories
+    # stored in an rpe(support_loop=True) Result are copies: every in-place operation on them leaves the arguments alone.
+    def same_result(r1, r2, what):
+        if r1.info != r2.info:
+            raise Violation("%s: second call on the same arguments: info %r, first call %r" % (what, r2.info, r1.info))
+        if snap(r1.stats) != snap(r2.stats):
+            raise Violation("%s: second call on the same arguments gives other statistics: %r, first call %r" % (what, r2.stats, r1.stats))
+        if list(r1.np_arrays) != list(r2.np_arrays):
+            raise Violation("%s: second call on the same arguments stores other arrays: %r, first call %r" % (
+                what, list(r2.np_arrays), list(r1.np_arrays)))
+        for k_ in r1.np_arrays:
+            if snap(r1.np_arrays[k_]) != snap(r2.np_arrays[k_]):
+                raise Violation("%s: second call on the same arguments: array %r has shape %r, first call %r (or other values)" % (
+                    what, k_, np.shape(r2.np_arrays[k_]), np.shape(r1.np_arrays[k_])))
+        if list(r1.trajectories) != list(r2.trajectories):
+            raise Violation("%s: second call on the same arguments stores other trajectories" % what)
+        for k_ in r1.trajectories:
+            if views(r1.trajectories[k_]) != views(r2.trajectories[k_]):
+                raise Violation("%s: second call on the same arguments: stored trajectory %r has %d poses, first call %d "
+                                "(or other values)" % (what, k_, r2.trajectories[k_].num_poses, r1.trajectories[k_].num_poses))
+
+    def rpe_twice(I, pairs, rel, delta, unit, kw):
+        from evo import main_rpe
+        for ref, est in pairs:
+            what = "main_rpe.rpe(%s, delta=%r %s%s, support_loop=True)" % (
+                rel.name, delta, unit.value, "".join(", %s=%r" % kv for kv in sorted(kw.items())))
+            n_ref, n_est = ref.num_poses, est.num_poses
+            r1 = main_rpe.rpe(ref, est, rel, delta, unit, support_loop=True, **kw)
+            if (ref.num_poses, est.num_poses) != (n_ref, n_est):
+                raise Violation("%s: the caller's trajectories had %d / %d poses before the call and have %d / %d after it" % (
+                    what, n_ref, n_est, ref.num_poses, est.num_poses))
+            r2 = main_rpe.rpe(ref, est, rel, delta, unit, support_loop=True, **kw)
+            same_result(r1, r2, what)
+            # derived objects: operate on the stored copies in every in-place way
+            for m in (lambda t: t.transform(I.T), lambda t: t.transform(I.S, right_mul=True, propagate=True),
+                      lambda t: t.scale(1.7), lambda t: t.project(Plane.XY), lambda t: t.project(Plane.YZ),
+                      lambda t: t.reduce_to_ids([0]), lambda t: t.downsample(2),
+                      lambda t: t.timestamps.__iadd__(0.5) if hasattr(t, "timestamps") else None):
+                for t in main_rpe.rpe(ref, est, rel, delta, unit, support_loop=True, **kw).trajectories.values():
+                    t.positions_xyz, t.orientations_quat_wxyz
+                    m(t)
+                    t.positions_xyz, t.poses_se3
+
+    RPE_VARIANTS = [
+        (PR.translation_part, 1, Unit.frames, {}),                       # keeps every pose
+        (PR.full_transformation, 2, Unit.frames, {}),                    # every 2nd pose
+        (PR.rotation_angle_deg, 3, Unit.frames, {"all_pairs": True}),    # poses 3..n-1
+        (PR.translation_part, 2.0, Unit.meters, {}),
+        (PR.rotation_part, 2.0, Unit.meters, {"all_pairs": True}),
+        (PR.point_distance, 2.0, Unit.meters, {"pairs_from_reference": True}),
+        (PR.rotation_angle_rad, 0.7, Unit.radians, {}),
+        (PR.translation_part, 40.0, Unit.degrees, {"rel_delta_tol": 0.2}),
+    ]
+    for rel, delta, unit, kw in RPE_VARIANTS:
+        add("evo.main_rpe.rpe", lambda I, rel=rel, delta=delta, unit=unit, kw=kw: (
+            {"traj_ref": I.A, "traj_est": I.B, "path_ref": I.P, "path_est": I.Q},
+            lambda: rpe_twice(I, [(I.A, I.B), (I.P, I.Q)], rel, delta, unit, kw), None))
+
+    def ape_twice(I, pairs, rel, kw):
+        from evo import main_ape
+        for ref, est in pairs:
+            what = "main_ape.ape(%s%s)" % (rel.name, "".join(", %s=%r" % kv for kv in sorted(kw.items())))
+            r1 = copy.deepcopy(main_ape.ape(ref, est, rel, **kw))    # the Result holds the argument objects themselves
+            r2 = main_ape.ape(ref, est, rel, **kw)
+            same_result(r1, r2, what)
+    for rel, kw in ((PR.translation_part, {}), (PR.full_transformation, {}), (PR.rotation_angle_deg, {"change_unit": Unit.radians}),
+                    (PR.point_distance, {"change_unit": Unit.millimeters})):
+        add("evo.main_ape.ape", lambda I, rel=rel, kw=kw: (
+            {"traj_ref": I.A, "traj_est": I.B, "path_ref": I.P, "path_est": I.Q},
+            lambda: ape_twice(I, [(I.A, I.B), (I.P, I.Q)], rel, kw), None))
     return T
 
 
@@ -1610,7 +1684,9 @@ def run(ctx, replay=None, proofs_ok=True):
     cov = {
         "evaluations": stats["evaluations"], "distinct_nontrivial": stats["distinct_nontrivial"],
         "rule": "(a) every entry of the call table (public functions of evo.core / evo.tools + the plotting step of evo_ape / "
-                "evo_rpe, common_ape_rpe.plot_result, with every colormap option) x variants x {matrix, xyz+quaternion "
+                "evo_rpe, common_ape_rpe.plot_result, with every colormap option + the metric entry points main_ape.ape and "
+                "main_rpe.rpe(support_loop=True) with frame / metre / angle deltas, consecutive and all pairs, called twice on the "
+                "same objects, in-place operations on the stored copies) x variants x {matrix, xyz+quaternion "
                 "storage} x {cold, warm caches}; "
                 "(b,c) corpus (F5a/F5b reproducers, PosePath3D) + systematic 2-step histories (15 derivations x 20 "
                 "in-place operations x 2 storage modes x 4 cache states of the source; quick: every 3rd) + association of "
